@@ -300,7 +300,7 @@ def expected(csv, ops, tf=None):
 
 
 def _norm(x):
-    if isinstance(x, float) and x == int(x) and abs(x) < 2 ** 62:
+    if isinstance(x, float) and x == x and abs(x) < 2 ** 62 and x == int(x):
         return int(x)
     if isinstance(x, bool):
         return int(x)
